@@ -6956,3 +6956,174 @@ func ruleBrkInterval(prop string) ruleFn {
 		}
 	}
 }
+
+// CRON-LIMIT-FIRST (C15, C16): a replacement that is refused leaves the job it was to replace.
+func ruleCronLimitFirst(prop string) ruleFn {
+	return func(w *World, r *Report) {
+		r.Rule("CRON-LIMIT-FIRST", "Cron.schedule replaces the pending entry with the job's id (CRON-UNIQ: remove, then insert, in one critical section).  Every reason to refuse the job — the capacity limit — is examined before the removal: from the call of Cron.rem no error return is reachable except the one that hands on rem's own error.  A refusal after the removal leaves the caller with an error, the old rule still stored, and no job for it", 1)
+		sched := w.Method("cron", "Cron", "schedule")
+		rem := w.Method("cron", "Cron", "rem")
+		key := "fn=" + fname(sched)
+		var rems []*ssa.Call
+		allInstrs(sched, func(in ssa.Instruction) {
+			if c, ok := in.(*ssa.Call); ok && c.Common().StaticCallee() == rem {
+				rems = append(rems, c)
+			}
+		})
+		if len(rems) == 0 {
+			r.exempt("CRON-LIMIT-FIRST", key, w.Pos(sched.Pos()), "schedule does not call rem: shape not recognised, not decided")
+			return
+		}
+		bad := ""
+		for _, rc := range rems {
+			rc := rc
+			isOtherErr := func(in ssa.Instruction) bool {
+				ret, ok := in.(*ssa.Return)
+				if !ok {
+					return false
+				}
+				idx := errorResultIndex(sched.Signature)
+				if idx < 0 || idx >= len(ret.Results) {
+					return false
+				}
+				// a shared `return err` whose err merges nil with an error made after the removal
+				fromRem := func(v ssa.Value) bool {
+					e, ok := v.(*ssa.Extract)
+					return ok && e.Tuple == ssa.Value(rc)
+				}
+				other := false
+				var walk func(v ssa.Value, seen map[ssa.Value]bool)
+				walk = func(v ssa.Value, seen map[ssa.Value]bool) {
+					v = resolveSpill(v)
+					if seen[v] {
+						return
+					}
+					seen[v] = true
+					if p, ok := v.(*ssa.Phi); ok {
+						for _, e := range p.Edges {
+							walk(e, seen)
+						}
+						return
+					}
+					if isNilConst(v) || dependsOn(v, fromRem) {
+						return
+					}
+					// an error value of its own: only counts if it was made after the removal
+					if vi, ok := v.(ssa.Instruction); ok && !reachable(sched, rc, vi) {
+						return
+					}
+					other = true
+				}
+				walk(ret.Results[idx], map[ssa.Value]bool{})
+				return other
+			}
+			if h, _ := reach(sched, rc, isOtherErr, nil, nil); h != nil {
+				bad = w.PosOf(h)
+			}
+		}
+		if bad != "" {
+			r.violation("CRON-LIMIT-FIRST", key, bad, "the job can still be refused after the entry it replaces was removed: a refused replacement leaves the old rule without its job")
+		} else {
+			r.ok("CRON-LIMIT-FIRST", key, w.PosOf(rems[0]), "nothing refuses the job after the removal")
+		}
+	}
+}
+
+// LOCK-SEND (C16, C13): nobody waits for the loop while holding what the loop needs.
+func ruleLockSend(prop string) ruleFn {
+	return func(w *World, r *Report) {
+		r.Rule("LOCK-SEND", "no method of cron.Cron sends on a channel (a blocking send, outside a select) while it holds the cron's mutex: the processing loop, which is the only receiver of the control channel, takes that mutex itself (after a pause, on every tick).  A command sent with the lock held when the channel is full waits for the loop, the loop waits for the lock: nothing fires again and every Add, Rem and command hangs", 1)
+		nt := w.Named("cron", "Cron")
+		e := newLocksetEngine(w, nil)
+		lock := "cron.Cron.Mutex"
+		n := 0
+		bad := ""
+		for _, fn := range w.MethodsOf(nt) {
+			withAnon(fn, func(g *ssa.Function) {
+				var acq []ssa.Instruction
+				allInstrs(g, func(in ssa.Instruction) {
+					if e.acquires(in, lock) {
+						acq = append(acq, in)
+					}
+				})
+				allInstrs(g, func(in ssa.Instruction) {
+					snd, ok := in.(*ssa.Send)
+					if !ok {
+						return
+					}
+					_ = snd
+					n++
+					for _, a := range acq {
+						if reachable(g, a, in) && between(g, a, in, func(x ssa.Instruction) bool { return e.releases(x, lock) }) == nil {
+							bad = w.PosOf(in)
+						}
+					}
+				})
+			})
+		}
+		switch {
+		case bad != "":
+			r.violation("LOCK-SEND", "type=cron.Cron", bad, "a blocking channel send is made with the cron's mutex held")
+		default:
+			r.ok("LOCK-SEND", "type=cron.Cron", "", itoa(n)+" channel send(s) in Cron's methods, none with the mutex held")
+		}
+	}
+}
+
+// CRON-START-ARMS (C16): a loop that starts looks at what is pending.
+func ruleCronStartArms(w *World, r *Report) {
+	r.Rule("CRON-START-ARMS", "the processing loop of the in-memory cron only acts when its timer fires, and only Add, a tick and `resume` arm the timer (CRON-REARM).  Therefore Cron.Start arms it once before it first waits: with the `suspended by the broadcaster` edge deleted, every path from the entry to the loop's select passes a call of resetTimer / resetTimerLocked.  Kill stops the timer; a loop started again afterwards (the API allows it) otherwise never fires what is pending until somebody adds a job", 1)
+	fn := w.Method("cron", "Cron", "start")
+	key := "fn=" + fname(fn)
+	isArm := func(in ssa.Instruction) bool {
+		c := callOf(in)
+		if c == nil || c.StaticCallee() == nil {
+			return false
+		}
+		n := c.StaticCallee().Name()
+		return n == "resetTimer" || n == "resetTimerLocked"
+	}
+	isSelect := func(in ssa.Instruction) bool { _, ok := in.(*ssa.Select); return ok }
+	// edges on which the broadcaster says `suspended`
+	del := map[bedge]bool{}
+	for _, b := range fn.Blocks {
+		if len(b.Instrs) == 0 {
+			continue
+		}
+		ifi, ok := b.Instrs[len(b.Instrs)-1].(*ssa.If)
+		if !ok {
+			continue
+		}
+		ct, ok := decodeIf(ifi)
+		if !ok {
+			continue
+		}
+		ex, ok := resolveSpill(ct.V).(*ssa.Extract)
+		if !ok || ex.Index != 1 {
+			continue
+		}
+		if c, ok := ex.Tuple.(*ssa.Call); !ok || c.Common().StaticCallee() == nil || c.Common().StaticCallee().Name() != "Get" {
+			continue
+		}
+		if ct.TrueWhen == "true" {
+			del[bedge{b, 0}] = true
+		} else if ct.TrueWhen == "false" {
+			del[bedge{b, 1}] = true
+		}
+	}
+	hasSelect := false
+	allInstrs(fn, func(in ssa.Instruction) {
+		if isSelect(in) {
+			hasSelect = true
+		}
+	})
+	if !hasSelect {
+		r.exempt("CRON-START-ARMS", key, w.Pos(fn.Pos()), "Start has no select: shape not recognised, not decided")
+		return
+	}
+	if h, _ := reach(fn, nil, isSelect, isArm, edgeFilterOf(del)); h != nil {
+		r.violation("CRON-START-ARMS", key, w.PosOf(h), "the loop can start waiting without having armed its timer: what is pending when it starts (after a Kill) never fires")
+		return
+	}
+	r.ok("CRON-START-ARMS", key, w.Pos(fn.Pos()), "the timer is armed before the loop first waits")
+}
